@@ -26,6 +26,9 @@ def run(ctx: Context) -> None:
     from . import c03 as _c03
     from .common import share_obligations as _share
     _share(ctx, _c03, {'R03.1'}, 'R18.6')
+    ctx.rule('R18.8', "distances along the path are measured from projections centred on the path vertices themselves", floor=1)
+    from . import infra as _infra
+    _infra.crs_centre(ctx, 'R18.8')
     from .common import adopt_foundations as _adopt
     _adopt(ctx, 'R18.7', ['geometry', 'order'], floor=60)
     ctx.assume("NOT decided: segment geometry (inside the cell, lengths adding up) and metre distances: GEOS / cartopy at run time")
